@@ -4,6 +4,7 @@ struct cmd { const char *name; int (*fn)(int, char **); };
 static struct cmd cmds[] = {
   {"c01", cmd_c01},
   {"c11", cmd_c11},
+  {"c10", cmd_c10},
   {NULL, NULL}
 };
 int main(int argc, char **argv) {
